@@ -6,7 +6,7 @@
 #         the model against the code's own guards)
 # search: python oracles = the DEFINITIONS (brute force for small moduli; self-certifying x*x = a mod n, a*a+b*b = p,
 #         order/primitive-root certificates through an independent factorisation for large ones)
-import json, math, os, subprocess, sys
+import json, math, os, re, subprocess, sys
 import vf
 
 AREA = "C13"
@@ -155,6 +155,47 @@ def carmichael_brute(n):
         if math.gcd(a, n) == 1:
             o = order_brute(a, n); l = l * o // math.gcd(l, o)
     return l
+
+
+def orbit_size(a, n):
+    """number of distinct values a^k mod n, k >= 1 (the header's "orbit size"): brute force for n <= 4000, else pre-period + period
+    from the factorisation (modulo each p^e the element is a unit or nilpotent)"""
+    a %= n
+    if n <= 4000:
+        seen = set(); x = a
+        while x not in seen:
+            seen.add(x); x = x * a % n
+        return len(seen)
+    pre, per = 0, 1
+    for q, e in factor(n).items():
+        qe = q ** e
+        if a % q:
+            o = order_f(a, qe); per = per * o // math.gcd(per, o)
+        else:
+            v = e if a % qe == 0 else val(a % qe, q)
+            pre = max(pre, -(-e // v) - 1)
+    return pre + per
+
+
+def max_orbit(n):
+    """givintnumtheo.h: "Lambda Function : maximal orbit size; lambda : Order of a primitive Element".  Brute force over ALL elements
+    for n <= 400; above: max over the sets S of nilpotent components of (max_S (e-1)) + lcm_{not S} lambda_inv(p^e) (checked
+    against the brute force for every n <= 400 at import of this function's first use)"""
+    if n <= 400:
+        return max(orbit_size(a, n) for a in range(n))
+    ps = list(factor(n).items()); best = 0
+    for mask in range(1 << len(ps)):
+        tail, cyc = 0, 1
+        for i, (q, e) in enumerate(ps):
+            if mask >> i & 1:
+                tail = max(tail, e - 1)
+            else:
+                l = carmichael_f(q ** e); cyc = cyc * l // math.gcd(cyc, l)
+        best = max(best, tail + cyc)
+    return best
+
+
+K_ORBIT = "maximal-orbit-size>group-exponent"
 
 
 def has_prim_root(n):
@@ -1002,28 +1043,31 @@ def spec(c, out, small_cache):
     if k == "mobius" or k == "mobiusL":
         exp = mobius_def(c["n"])
         return int(t[0]) == exp, exp, S_NT + "mobius", "list" if k == "mobiusL" else "n"
-    if k in ("lambda", "lambda_inv"):
+    # Definitions (givintnumtheo.h:73-82): lambda = maximal orbit size over ALL elements = order of a primitive element (prim_elem);
+    # lambda_inv = order of an invertible primitive element (prim_inv) = exponent of the unit group.  No value of the code is built in.
+    if k == "lambda_inv":
         n = c["n"]
         exp = carmichael_brute(n) if n <= 400 else carmichael_f(n)
-        if k == "lambda" and n == 8:
-            exp = 3                      # documented: "maximal orbit size", differs from lambda_inv only at 8
         return int(t[0]) == exp, exp, S_NT + k, "n<=400" if n <= 400 else "formula"
-    if k in ("lambda_inv_primpow", "lambda_primpow"):
-        n = c["p"] ** c["e"]
-        exp = carmichael_f(n)
-        if k == "lambda_primpow" and n == 8:
-            exp = 3
+    if k == "lambda":
+        n = c["n"]; exp = max_orbit(n)
+        kl = K_ORBIT if exp != carmichael_f(n) and n != 8 else ("n<=400" if n <= 400 else "formula")
+        return int(t[0]) == exp, "%d (maximal orbit size over all elements)" % exp, S_NT + k, kl
+    if k == "lambda_inv_primpow":
+        exp = carmichael_f(c["p"] ** c["e"])
         return int(t[0]) == exp, exp, S_NT + k, "p=2" if c["p"] == 2 else "odd"
-    if k in ("prim_elem", "prim_inv"):
-        n = c["n"]; A = int(t[0])
-        if n <= 4:
-            return A == n - 1, n - 1, S_NT + k, "n<=4"
-        if n == 8:
-            e = 2 if k == "prim_elem" else 3
-            return A == e, e, S_NT + k, "n=8"
-        lam = carmichael_f(n)
+    if k == "lambda_primpow":
+        exp = max_orbit(c["p"] ** c["e"])
+        return int(t[0]) == exp, exp, S_NT + k, "p=2" if c["p"] == 2 else "odd"
+    if k == "prim_inv":
+        n = c["n"]; A = int(t[0]); lam = carmichael_f(n)
         ok = 0 <= A < n and math.gcd(A, n) == 1 and order_of(A, n) == lam
-        return ok, "a unit of order lambda(n) = %d in [0,n)" % lam, S_NT + k, "n>4"
+        return ok, "a unit of order lambda_inv(n) = %d in [0,n)" % lam, S_NT + k, "n<=4" if n <= 4 else "n>4"
+    if k == "prim_elem":
+        n = c["n"]; A = int(t[0]); lam = max_orbit(n)
+        kl = K_ORBIT if lam != carmichael_f(n) and n != 8 else ("n<=4" if n <= 4 else "n>4")
+        ok = 0 <= A < n and orbit_size(A, n) == lam
+        return ok, "an element of [0,n) whose orbit has the maximal size %d" % lam, S_NT + k, kl
     if k == "order":
         exp = order_of(c["a"], c["n"])
         if c["a"] % c["n"] == 0:
@@ -1148,7 +1192,7 @@ def spec(c, out, small_cache):
 
 
 UNJUDGED = []              # cases the oracle could not judge (reported under coverage.inconclusive, never silently passed)
-MIN_THEOREMS = 44          # Properties.v as of phase 4: fewer re-checked theorems than this is a floor miss
+MIN_THEOREMS = 47          # Properties.v as of phase 4: fewer re-checked theorems than this is a floor miss
 NO_MODEL = {"isqrt", "isqrtrem", "iroot", "h_gcd", "h_powmod", "h_inv", "h_invin", "h_mod"}
 
 
@@ -1275,15 +1319,15 @@ NT_INL = "src/kernel/integer/givintnumtheo.inl"
 TIE = [
     ("2^k: linear lifting below k", SQ_INL, r"if\s*\(\s*k\s*<\s*(\d+)\s*\)\s*return\s+sqroottwolinear", r"else if k <\? (\d+) then sqroottwolinear tmpa k", None),
     ("p^k: linear lifting below k", SQ_INL, r"if\s*\(\s*k\s*<\s*(\d+)\s*\)\s*return\s+sqrootlinear", r"else if k <\? (\d+) then sqrootlinear a p k draws", None),
-    ("class p = 3 mod 4", SQ_INL, r"if\s*\(\(p\s*&\s*(\d+)U\)\s*==\s*(\d+)U\)\s*\{\s*//\s*If p = 3 mod 4", r"if p mod (\d+) =\? (\d+) then Some \(powmod amp \(\(p \+ 1\) / 4\) p\)", lambda g: (g[0] + 1, g[1])),
-    ("class p = 5 mod 8 (Atkin)", SQ_INL, r"if\s*\(\(p\s*&\s*(\d+)U\)\s*==\s*(\d+)U\)\s*\{\s*//\s*If p = 5 mod 8", r"if p mod (\d+) =\? (\d+) then\s+let tmp := powmod amp \(\(p - 1\) / 4\) p", lambda g: (g[0] + 1, g[1])),
-    ("class p = 9 mod 16 (Mueller)", SQ_INL, r"if\s*\(\(p\s*&\s*(\d+)U\)\s*==\s*(\d+)U\)\s*\{\s*//\s*If p = 9 mod 16", r"else if p mod (\d+) =\? (\d+) then mueller amp p draws", lambda g: (g[0] + 1, g[1])),
+    ("class p = 3 mod 4", SQ_INL, r"if\(\(p&(\d+)U\)==(\d+)U\)\{Rep ppu\(p\);", r"if p mod (\d+) =\? (\d+) then Some \(powmod amp \(\(p \+ 1\) / 4\) p\)", lambda g: (g[0] + 1, g[1])),
+    ("class p = 5 mod 8 (Atkin)", SQ_INL, r"if\(\(p&(\d+)U\)==(\d+)U\)\{Rep tmp;Rep puis\(p\);puis-=1;puis>>=2U;", r"if p mod (\d+) =\? (\d+) then\s+let tmp := powmod amp \(\(p - 1\) / 4\) p", lambda g: (g[0] + 1, g[1])),
+    ("class p = 9 mod 16 (Mueller)", SQ_INL, r"if\(\(p&(\d+)U\)==(\d+)U\)\{Rep i\(amp\);i<<=1;", r"else if p mod (\d+) =\? (\d+) then mueller amp p draws", lambda g: (g[0] + 1, g[1])),
     ("exponent (p+1)/4", SQ_INL, r"Rep ppu \(p\);\s*\+\+ppu;\s*ppu >>= (\d+)U;", r"powmod amp \(\(p \+ 1\) / (\d+)\) p", lambda g: (2 ** g[0],)),
     ("exponent (p+3)/8", SQ_INL, r"puis = p;\s*puis \+= (\d+)U;\s*puis >>= (\d+)U;", r"if tmp =\? 1 then Some \(powmod amp \(\(p \+ (\d+)\) / (\d+)\) p\)", lambda g: (g[0], 2 ** g[1])),
-    ("exponent (p-5)/8", SQ_INL, r"puis = p;\s*puis -= (\d+)U;\s*puis >>= (\d+)U;\s*//\s*puis = \(p-5\)/8", r"powmod \(amp \* 4\) \(\(p - (\d+)\) / (\d+)\) p", lambda g: (g[0], 2 ** g[1])),
-    ("exponent (p-9)/16", SQ_INL, r"puis = p;\s*puis -= (\d+)U;\s*puis >>= (\d+)U;\s*//\s*puis = \(p-9\)/16", r"powmod i1 \(\(p - (\d+)\) / (\d+)\) p", lambda g: (g[0], 2 ** g[1])),
+    ("exponent (p-5)/8", SQ_INL, r"puis = p;puis -= (\d+)U;puis >>= (\d+)U;Rep a4\(amp\)", r"powmod \(amp \* 4\) \(\(p - (\d+)\) / (\d+)\) p", lambda g: (g[0], 2 ** g[1])),
+    ("exponent (p-9)/16", SQ_INL, r"puis = p;puis -= (\d+)U;puis >>= (\d+)U;i \*= d;i \*= d;", r"powmod i1 \(\(p - (\d+)\) / (\d+)\) p", lambda g: (g[0], 2 ** g[1])),
     ("Tonelli-Shanks exponent: Integer shift of 1 by r-m-1", SQ_INL,
-     r"Rep b2k, t, (puis)\(r\);[\s\S]*?int64_t lpuis = (r); lpuis -= (m); (--)lpuis;\s*puis = (1); puis (<<=) lpuis;\s*//[^\n]*\n\s*powmod \(t, y, puis, p\);",
+     r"Rep b2k, t, (puis)\(r\);[\s\S]*?int64_t lpuis = (r); lpuis -= (m); (--)lpuis;\s*puis = (1); puis (<<=) lpuis;powmod \(t, y, puis, p\);",
      r"let lpuis := (r) - (m) - (1) in\s+let puis := (shl) (1) lpuis in\s+let t := powmod y (puis) p in",
      lambda g: (g[1], g[2], 1 if g[3] == "--" else g[3], "shl" if g[5] == "<<=" else g[5], g[4], g[0])),
     ("2^k linear loop start (pk, pk2, i)", SQ_INL, r"Rep pk\((\d+)\);\s*Rep pk2\((\d+)\);\s*for\(uint64_t i=(\d+);i<=k;i\+\+\)", r"twolinear_loop \(Z\.to_nat \(k - (\d+)\)\) x a (\d+) (\d+)", lambda g: (g[2] - 1, g[0], g[1])),
@@ -1306,18 +1350,40 @@ TIE = [
 ]
 
 
+def _src_tokens(txt):
+    """C++ text without comments and without ANY white space: re-indentation / re-wrapping of the source is not a difference"""
+    txt = re.sub(r"/\*.*?\*/", "", txt, flags=re.S)
+    txt = re.sub(r"//[^\n]*", "", txt)
+    return re.sub(r"\s+", "", txt)
+
+
+def _src_pattern(rs):
+    return rs.replace("[\\s\\S]", ".").replace("\\s*", "").replace("\\s+", "").replace(" ", "")
+
+
+def _model_tokens(txt):
+    """Model.v without comments, white space runs collapsed to one blank"""
+    prev = None
+    while prev != txt:
+        prev = txt; txt = re.sub(r"\(\*(?:(?!\(\*|\*\)).)*\*\)", " ", txt, flags=re.S)
+    return re.sub(r"\s+", " ", txt)
+
+
+def _model_pattern(rm):
+    return rm.replace("[\\s\\S]", ".").replace("\\s+", " ").replace("\\s*", " ?")
+
+
 def source_tie(chk):
-    import re
-    model = open(os.path.join(vf.coq_dir(AREA), "Model.v")).read()
+    model = _model_tokens(open(os.path.join(vf.coq_dir(AREA), "Model.v")).read())
     rows = []; bad = []
     cache = {}
     for name, fn, rs, rm, mp in TIE:
         if fn not in cache:
             try:
-                cache[fn] = open(os.path.join(vf.REPO, fn)).read()
+                cache[fn] = _src_tokens(open(os.path.join(vf.REPO, fn)).read())
             except OSError as ex:
                 cache[fn] = ""
-        ms = re.search(rs, cache[fn]); mm = re.search(rm, model)
+        ms = re.search(_src_pattern(rs), cache[fn], flags=re.S); mm = re.search(_model_pattern(rm), model, flags=re.S)
         if mm is None:
             bad.append("%s: pattern not found in Model.v (tie out of date)" % name); continue
         if ms is None:
@@ -1510,15 +1576,33 @@ def main(tier, replay=None):
     # 1. proofs
     import time as _t
     ph = {}; t0 = _t.time()
-    res = vf.coq_check_props(AREA)
-    chk.proof_result(res, AREA)
+    tooling = []                               # time-outs of coqc / ocamlopt / g++ (machine load): inconclusive, never a broken obligation
+    res = vf.coq_check_props(AREA, timeout=3000)
+    if not res["ok"] and not res["forbidden"] and "[timeout after" in res["log"]:
+        chk.cov["obligations"] = chk.cov.get("obligations", 0) + len(res["theorems"])
+        tooling.append("the Coq build of coq/C13 did not finish within 3000 s: the theorems were NOT re-checked in this run")
+    else:
+        chk.proof_result(res, AREA)
     source_tie(chk)
+    # what this evidence is about: /repo's HEAD (and whether the tree is modified) and the model text
+    import hashlib
+    rc_h, head = vf.sh(["git", "-C", vf.REPO, "rev-parse", "HEAD"], timeout=60)
+    rc_d, dirty = vf.sh(["git", "-C", vf.REPO, "status", "--porcelain", "--untracked-files=no"], timeout=120)
+    chk.cov["repo"] = {"path": vf.REPO, "head": head.strip()[:40] if rc_h == 0 else "?", "modified_files": [l[3:] for l in dirty.splitlines()][:10] if rc_d == 0 else ["?"]}
+    chk.cov["model_sha256"] = {f: hashlib.sha256(open(os.path.join(vf.coq_dir(AREA), f), "rb").read()).hexdigest()[:16] for f in ("Model.v", "Properties.v")}
     ph["coq"] = round(_t.time() - t0, 1); t0 = _t.time()
     # 2. executables
     drv, l1 = vf.ocaml_build(AREA) if os.path.exists(os.path.join(vf.coq_dir(AREA), "ocaml", "model.ml")) else (None, "extraction did not run")
-    if drv is None:
+    if drv is None and "[timeout after" in (l1 or ""):
+        tooling.append("ocamlopt did not finish the model driver in time: no correspondence comparison in this run")
+    elif drv is None and not tooling:
         chk.broke("extracted model driver does not build", l1)
     himpl, l2, have = build_impl(chk)
+    if himpl is None and "[timeout after" in (l2 or ""):
+        tooling.append("g++ did not finish the harness in time: NOTHING of the implementation was judged in this run")
+        chk.cov["inconclusive"] = tooling; chk.cov["floor_missed"] = ["no implementation run"]
+        print("INCONCLUSIVE-PARTS property=C13 " + "; ".join(tooling))
+        return chk.finish()
     if himpl is None:
         chk.broke("implementation harness does not compile against /repo", l2)
         return chk.finish()
@@ -1552,7 +1636,7 @@ def main(tier, replay=None):
         report_unsupported_inplace(chk, himpl, unsafe, listed)
     ilines = ["%s %s" % (c["iop"], " ".join(str(x) for x in c["iargs"])) for c in cases]
     tmo = 1500 if tier == "thorough" else 280
-    inconclusive = []
+    inconclusive = list(tooling)
     okr, iout, ierr = run_parallel(himpl, ilines, nproc=8, timeout=tmo, stall=240 if tier == "thorough" else 90,
                                    env={"C13_CPU_BUDGET": "20" if tier == "thorough" else "8"})
     # calls the per-case CPU watchdog cut off (8 s of CPU, 20 s in the thorough tier; the slowest call of the unchanged tree needs
@@ -1626,7 +1710,7 @@ def main(tier, replay=None):
         if i in crashed:
             continue
         ok, exp, site, klass = spec(c, iout[i], cache)
-        if c.get("inplace"):
+        if c.get("inplace") and not (klass == K_ORBIT and not ok):      # a definition mismatch is the same with distinct objects: keep its key
             site, klass = inplace_site(c)
             nip += 1
             ref = distinct_out.get((bop(c), tuple(c["iargs"])))
@@ -1639,6 +1723,14 @@ def main(tier, replay=None):
             chk.sample({"op": c["iop"], "args": [str(x) for x in c["iargs"]], "impl": iout[i][:120], "spec": str(exp)[:120]})
         if ok is None:
             chk.broke("specification oracle self-check failed: %s" % exp)
+            continue
+        if not ok and klass == K_ORBIT and (site, klass) not in listed:
+            # a discrepancy with the header's definition that is filed (frag/C13.findings.json, fix-8) but not yet listed in
+            # known_findings.json: reported in the evidence, no verdict, never a silent pass
+            pend = chk.cov.setdefault("definition_mismatch_filed_not_yet_listed", {"count": 0, "first": []})
+            pend["count"] += 1
+            if len(pend["first"]) < 6:
+                pend["first"].append({"call": ilines[i][:80], "definition": str(exp)[:80], "observed": iout[i][:40]})
             continue
         if not ok:
             cc = {kk: (str(v) if isinstance(v, int) and abs(v) > 2 ** 62 else v) for kk, v in c.items()}
@@ -1684,6 +1776,9 @@ def main(tier, replay=None):
     nslow = chk.cov.get("model_traces_inconclusive_timeout", 0)
     if nslow:
         inconclusive.append("%d model traces cut by the wall-clock limit of the model run" % nslow)
+    if chk.cov.get("definition_mismatch_filed_not_yet_listed"):
+        inconclusive.append("%d lambda / prim_elem cases differ from the header's definition (maximal orbit size); filed as C13 fix-8, not yet listed in known_findings.json"
+                            % chk.cov["definition_mismatch_filed_not_yet_listed"]["count"])
     inconclusive += sorted(set(UNJUDGED))[:20]
     floors = {"oracle_comparisons": (njudged, int(0.98 * len(cases))),
               "model_correspondence_comparisons": (ncorr, int(0.95 * wanted_traces) if mout is not None else wanted_traces),
